@@ -20,9 +20,10 @@ func init() {
 			"R7.3 number literals are emitted verbatim: the printers write exactly Token.Literal, the parser stores the current token unchanged, and the literal is the source slice (C10 R10.4); " +
 			"R7.4 the integer/float parse methods branch on strconv's error and return nil on the error edge; " +
 			"R7.5 the code-point encoder has RFC 3629's range boundaries, lengths, markers, shifts and masks; R7.6 in every delimited scanner a backslash takes the next byte with it; R7.7 the scanners keep no state between characters; " +
-			"R7.8 in a scanner whose rounds can all be walked path by path, every round writes what it consumes (a backslash the printer restores and an escape the scanner adds are the accounted differences). " +
+			"R7.8 in a scanner whose rounds can all be walked path by path, every round writes what it consumes (a backslash the printer restores and an escape the scanner adds are the accounted differences); " +
+			"R7.9 the digit-value function the escape decoders accumulate with gives 0..15 for the 22 hexadecimal digits and the hexadecimal digit test is true for exactly those bytes (both folded for every byte value). " +
 			"Genuine defects found by R7.1 are listed as known findings (decoded \\xHH/\\uHHHH/\\u{…} escapes can produce the delimiter, a backslash or a line terminator) or repaired.",
-		notDecided: []string{"the value an escape sequence decodes to (arithmetic of hex/UTF-8 encoding)", "surrogate pairs", "whether strconv's accepted number syntax equals ECMAScript's"},
+		notDecided: []string{"the value an escape sequence decodes to beyond digit values (R7.9) and encoder constants (R7.5): the accumulation arithmetic itself", "surrogate pairs", "whether strconv's accepted number syntax equals ECMAScript's"},
 	})
 }
 
@@ -515,6 +516,10 @@ func runC07(c *Ctx) {
 	c.rule("R7.5", "the code-point encoder used for \\u escapes has RFC 3629's range boundaries, lengths, lead/continuation markers, shifts and masks (constants and shape, not arithmetic over sample values)")
 	c.floor(1)
 	ruleUTF8Encoder(c, lf)
+
+	c.rule("R7.9", "the digit-value function of the escape decoders maps each hexadecimal digit to its value, and the digit test that guards it accepts exactly the hexadecimal digits (both folded per byte)")
+	c.floor(1)
+	ruleHexDigits(c)
 
 	c.rule("R7.6", "escape pairing: in every delimited scanner a backslash takes the following byte with it (that byte is never re-examined as a backslash or as the delimiter)")
 	c.floor(2)
@@ -1114,4 +1119,140 @@ func classifySink(lf *lexFacts, cx *lexCtx, st *lexState, call *ssa.Call, prevLo
 		}
 	}
 	return si
+}
+
+// ruleHexDigits (R7.9). The escape decoders accumulate `value*16 + digitValue(b)` (or `value<<4 | …`) under a digit
+// test. Both helpers are pure functions of one byte, so they are folded for each of the 256 byte values: the value
+// function must give 0–15 for the 22 hexadecimal digits, and every byte predicate that guards an accumulation must
+// be true for exactly those 22 bytes. (What the accumulated code point is then encoded to is R7.5.)
+func ruleHexDigits(c *Ctx) {
+	c.buildSSA()
+	hexVal := func(b byte) (int64, bool) {
+		switch {
+		case b >= '0' && b <= '9':
+			return int64(b - '0'), true
+		case b >= 'a' && b <= 'f':
+			return int64(b-'a') + 10, true
+		case b >= 'A' && b <= 'F':
+			return int64(b-'A') + 10, true
+		}
+		return 0, false
+	}
+	byteToInt := func(f *ssa.Function) bool {
+		if f == nil || f.Blocks == nil || len(f.Params) != 1 || f.Signature.Recv() != nil || f.Signature.Results().Len() != 1 || !isByte(f.Params[0].Type()) {
+			return false
+		}
+		b, ok := f.Signature.Results().At(0).Type().Underlying().(*types.Basic)
+		return ok && b.Info()&types.IsInteger != 0
+	}
+	valueFns := map[*ssa.Function]token.Pos{}
+	var order []*ssa.Function
+	for _, f := range c.libFunctions("lexer") {
+		allInstrs(f, func(_ *ssa.BasicBlock, _ int, in ssa.Instruction) {
+			bo, ok := in.(*ssa.BinOp)
+			if !ok || (bo.Op != token.ADD && bo.Op != token.OR) {
+				return
+			}
+			for _, pair := range [][2]ssa.Value{{bo.X, bo.Y}, {bo.Y, bo.X}} {
+				sh, ok := unwrap(pair[0]).(*ssa.BinOp)
+				if !ok {
+					continue
+				}
+				k, isK := constInt64(sh.Y)
+				if !isK || !((sh.Op == token.MUL && k == 16) || (sh.Op == token.SHL && k == 4)) {
+					continue
+				}
+				call, ok := unwrap(pair[1]).(*ssa.Call)
+				if !ok || !byteToInt(call.Call.StaticCallee()) {
+					continue
+				}
+				g := call.Call.StaticCallee()
+				if _, seen := valueFns[g]; !seen {
+					valueFns[g] = call.Pos()
+					order = append(order, g)
+				}
+			}
+		})
+	}
+	if len(order) == 0 {
+		c.unres("digit-value function", token.NoPos, "no accumulation `value*16 + f(byte)` found in package lexer: hexadecimal escapes are decoded in a form this rule does not read")
+		return
+	}
+	for _, g := range order {
+		var wrong []string
+		folded := true
+		for b := 0; b < 256; b++ {
+			want, isHex := hexVal(byte(b))
+			if !isHex {
+				continue
+			}
+			v, ok := foldFn(g, []constant.Value{constant.MakeInt64(int64(b))})
+			if !ok || v == nil {
+				folded = false
+				break
+			}
+			got, _ := constant.Int64Val(constant.ToInt(v))
+			if got != want {
+				wrong = append(wrong, fmt.Sprintf("%q→%d (want %d)", string(rune(b)), got, want))
+			}
+		}
+		key := g.Name() + ": value of every hexadecimal digit"
+		switch {
+		case !folded:
+			c.unres(key, g.Pos(), "the function does not fold per byte (not a pure function of its argument in the forms foldFn reads)")
+		case len(wrong) > 0:
+			c.bad(key, g.Pos(), "the digit-value function is wrong for %s: every \\x / \\u escape spelled with such a digit decodes to another character", strings.Join(wrong, ", "))
+		default:
+			c.ok(key, g.Pos(), "0-9, a-f, A-F map to 0..15")
+		}
+	}
+	// the digit tests: pure byte predicates of package lexer that are true for all ten decimal digits and for at
+	// least one letter (a hexadecimal digit test by what it computes, whatever it is called)
+	for _, f := range c.libFunctions("lexer") {
+		if f.Blocks == nil || len(f.Params) != 1 || f.Signature.Recv() != nil || f.Signature.Results().Len() != 1 || !isByte(f.Params[0].Type()) {
+			continue
+		}
+		if b, ok := f.Signature.Results().At(0).Type().Underlying().(*types.Basic); !ok || b.Kind() != types.Bool {
+			continue
+		}
+		var trueSet []byte
+		folded := true
+		for b := 0; b < 256 && folded; b++ {
+			v, ok := foldFn(f, []constant.Value{constant.MakeInt64(int64(b))})
+			if !ok || v == nil || v.Kind() != constant.Bool {
+				folded = false
+				break
+			}
+			if constant.BoolVal(v) {
+				trueSet = append(trueSet, byte(b))
+			}
+		}
+		if !folded {
+			continue
+		}
+		// a hexadecimal digit test by extension: accepts '0'..'9' and 'a' or 'A', and does not accept 'g'..'z' wholesale
+		has := func(x byte) bool {
+			for _, t := range trueSet {
+				if t == x {
+					return true
+				}
+			}
+			return false
+		}
+		if !(has('0') && has('9') && (has('a') || has('A')) && !has('z') && !has('_')) {
+			continue
+		}
+		var extra, missing []string
+		for b := 0; b < 256; b++ {
+			_, isHex := hexVal(byte(b))
+			switch {
+			case isHex && !has(byte(b)):
+				missing = append(missing, fmt.Sprintf("%q", string(rune(b))))
+			case !isHex && has(byte(b)):
+				extra = append(extra, fmt.Sprintf("%q", string(rune(b))))
+			}
+		}
+		key := f.Name() + ": true for exactly the hexadecimal digits"
+		c.check(len(extra) == 0 && len(missing) == 0, key, f.Pos(), "22 bytes: 0-9, a-f, A-F", fmt.Sprintf("the hexadecimal digit test accepts %v and rejects %v: an escape with such a digit is cut short or swallows a following character", extra, missing))
+	}
 }
